@@ -5,6 +5,8 @@ import ExaModel.Props.C06
 #print axioms Exa.Props.C06.c06_delivers_exactly
 #print axioms Exa.Props.C06.c06_header_errors
 #print axioms Exa.Props.C06.c06_py_header_decision
+#print axioms Exa.Props.C06.c06_bound_is_negotiated
+#print axioms Exa.Props.C06.c06_over_negotiated_is_1_2
 #print axioms Exa.Props.C06.c06_error_ends_session
 #print axioms Exa.Props.C06.c06_unknown_type
 #print axioms Exa.Props.C06.c06_setmax_at_boundary
